@@ -282,6 +282,10 @@ def plan_load_templates(tier):
             old2 = ["op plan.append 0 0 %d" % a1, "op plan.append 0 %d %d" % (a1, a2), "op plan.append 0 %d 0" % a2, "op succeed 0 0", "op update 0", "op plan.append 0 0 %d" % a2]
             out.append((c, "\n".join(pre + old2 + donor + ["op loadfrom 0 1", "op plan.append 0 0 %d" % a2, "op succeed 0 0", "op update 0", "op update 0", "op succeed 0 %d" % a2, "op update 0"]) + "\n",
                         "template:recycled-plan-wiped-by-load"))
+        # (iv) filled to its capacity and one beyond: the capacity is the configured one whatever else is compiled in (here: serialization, whose bit count travels
+        # in the same template argument list), the refused task changes nothing, every accepted task fires
+        fill = ["op plan.append 0 %d %d" % (k % n, (k + 1) % n) for k in range(cap)] + ["op plan.append 0 0 %d" % a1, "op plan.append 0 0 0"]
+        out.append((c, "\n".join(pre + fill + sum((["op succeed 0 %d" % (k % n), "op update 0"] for k in range(min(cap, 6))), [])) + "\n", "template:plan-filled-to-capacity"))
         # (iii) wiped by exit()/enter() or destruction instead of load()
         if manual:
             out.append((c, "\n".join(pre + old + ["op exit 0", "op enter 0", "op plan.append 0 0 %d" % a1, "op succeed 0 0", "op update 0", "op update 0"]) + "\n", "template:plan-wiped-by-exit-enter"))
@@ -634,7 +638,7 @@ def run_check(pid, tier, seed):
 # ---------------------------------------------------------------------------------------------- C18
 SAN = ["-fsanitize=address,undefined", "-fno-sanitize-recover=all", "-g", "-fno-omit-frame-pointer"]
 SAN_GXX = SAN + ["-fsanitize=bounds-strict"]     # g++ only: also check indices into arrays that are the last member of their class (ASan cannot see an overflow that stays inside the enclosing object)
-SAN_ENV = dict(ASAN_OPTIONS="detect_leaks=0:abort_on_error=0:exitcode=99", UBSAN_OPTIONS="print_stacktrace=1:halt_on_error=1:exitcode=98")
+SAN_ENV = dict(ASAN_OPTIONS="detect_leaks=0:abort_on_error=0:exitcode=99:detect_stack_use_after_return=1", UBSAN_OPTIONS="print_stacktrace=1:halt_on_error=1:exitcode=98")
 
 def cfgs_san(tier, rng):
     out = [cfgmod.make(n=1, head=1, manual=1, limit=1, cap=1, payload=5, plans=1, serial=1, history=1, log="on"),          # smallest machine, 16-byte aligned payload, capacity 1
@@ -645,6 +649,7 @@ def cfgs_san(tier, rng):
            cfgmod.make(n=8, head=1, manual=0, limit=2, cap=2, payload=0, plans=1, serial=1, history=1, log="off"),          # bit sets of exactly one byte
            cfgmod.make(n=16, head=0, manual=1, limit=2, cap=3, payload=2, plans=1, serial=1, history=0, log="off"),
            cfgmod.make(n=128, head=0, manual=1, limit=1, cap=2, payload=0, plans=0, serial=1, history=0, log="off"),              # the first state count whose serial form needs a second byte
+           cfgmod.make(n=64, head=1, manual=0, limit=1, cap=2, payload=0, plans=0, serial=1, history=0, log="off"),      # serial form of exactly 8 bits: the one-byte buffer is filled to its last bit
            cfgmod.make(n=2, head=1, manual=0, limit=2, cap=6, payload=0, plans=1, serial=0, history=1, log="on"),                # payload-free plans with a capacity well above the state count
            cfgmod.make(n=3, head=1, manual=0, limit=2, cap=2, payload=2, plans=0, serial=1, history=1, log="on"),                # logger without plans: copies and moves must carry the logger pointer
            cfgmod.make(n=2, head=0, manual=1, limit=2, cap=2, payload=0, plans=0, serial=0, history=0, log="verbose", order=1)]
